@@ -19,6 +19,9 @@ pub struct FAttr {
 	/// content octets overriding the reference encoding of `text` (e.g. Latin-1 in a T61String)
 	#[serde(default)]
 	pub raw: Option<Hex>,
+	/// content octets of the attribute type OID overriding `oid` (arcs beyond 64 bits)
+	#[serde(default)]
+	pub oid_raw: Option<Hex>,
 }
 
 /// RDNSequence with possibly multi-valued RDNs.
@@ -27,7 +30,7 @@ pub struct FName(pub Vec<Vec<FAttr>>);
 
 impl FName {
 	pub fn from_dn(d: &DnSpec) -> FName {
-		FName(d.effective().into_iter().map(|(t, v)| vec![FAttr { oid: t.oid(), kind: v.kind, text: v.text, raw: None }]).collect())
+		FName(d.effective().into_iter().map(|(t, v)| vec![FAttr { oid: t.oid(), kind: v.kind, text: v.text, raw: None, oid_raw: None }]).collect())
 	}
 	pub fn is_flat(&self) -> bool {
 		self.0.iter().all(|r| r.len() == 1)
@@ -43,7 +46,7 @@ impl FName {
 			.map(|rdn| {
 				let atvs: Vec<Vec<u8>> = rdn
 					.iter()
-					.map(|a| enc_seq(&[enc_oid(&a.oid), enc_tlv(a.kind.tag() as u8, &a.raw.as_ref().map(|r| r.0.clone()).unwrap_or_else(|| a.kind.encode(&a.text)))]))
+					.map(|a| enc_seq(&[a.oid_raw.as_ref().map(|r| enc_tlv(0x06, &r.0)).unwrap_or_else(|| enc_oid(&a.oid)), enc_tlv(a.kind.tag() as u8, &a.raw.as_ref().map(|r| r.0.clone()).unwrap_or_else(|| a.kind.encode(&a.text)))]))
 					.collect();
 				enc_set_of(&atvs)
 			})
